@@ -806,11 +806,13 @@ class ChunkParser:
         self._parse_meaningful(chunk, chunk_layout)
 
         # Put unused twprge and unused sections back into the working lists.
+        # (Either may still be `None`, if no Twp/Rge or no section was
+        # ever staged -- in which case, there is nothing to put back.)
         if not self.last_twprge_used \
-                and self.working_twprge != MasterConfig._ERR_TWPRGE:
+                and self.working_twprge not in [None, MasterConfig._ERR_TWPRGE]:
             self.working_twprge_list.insert(0, self.working_twprge)
         if not self.last_sec_used \
-                and self.working_sec != [MasterConfig._ERR_SEC]:
+                and self.working_sec not in [None, [MasterConfig._ERR_SEC]]:
             self.working_sec_list.insert(0, self.working_sec)
 
         for twprge in self.working_twprge_list:
